@@ -354,11 +354,20 @@ func ParseSpendPolicy(s string) (SpendPolicy, error) {
 		return
 	}
 	parseUnlockKey := func() (uk UnlockKey) {
+		// a non-alphanumeric algorithm specifier is printed as a quoted
+		// string, which may contain delimiter characters
+		var quoted string
+		s = strings.TrimSpace(s)
+		if err == nil && strings.HasPrefix(s, `"`) {
+			if q, qerr := strconv.QuotedPrefix(s); qerr == nil {
+				quoted, s = q, s[len(q):]
+			}
+		}
 		t := nextToken()
 		if err != nil {
 			return
 		}
-		err = uk.UnmarshalText([]byte(t))
+		err = uk.UnmarshalText([]byte(quoted + t))
 		return
 	}
 	var parseSpendPolicy func() SpendPolicy
